@@ -171,6 +171,9 @@ func (fr *frame) runDefer(d *deferred) {
 			if ea, isAbort := fr.panic.(engineAbort); isAbort {
 				panic(ea)
 			}
+			if dl, isDeadlock := fr.panic.(pathDeadlock); isDeadlock {
+				panic(dl)
+			}
 		}
 	}()
 	call(fr.i, fr, d.instr.Pos(), d.fn, d.args)
@@ -618,6 +621,9 @@ func runFrame(fr *frame) {
 		fr.panic = recover()
 		if ea, ok := fr.panic.(engineAbort); ok {
 			panic(ea) // engine-level abort: not visible to the target program
+		}
+		if dl, ok := fr.panic.(pathDeadlock); ok {
+			panic(dl) // every goroutine is blocked for good: the program never gets to run its deferred calls
 		}
 		if fr.i.lastFaultVal == nil {
 			fr.i.lastFaultVal = fr.panic
